@@ -295,3 +295,69 @@ func vh_C15_keymaterial(a []int) {
 	}
 	vReach("C15.end")
 }
+
+// vh_C15_spine: the verification stages chained as in InTotoVerify, fed by any
+// link map LoadLinksForLayout's contract allows (at least threshold entries per
+// step, thresholds arbitrary including <= 0, steps without links, empty rule
+// lists and empty rules): every path returns an error or a result, none panics.
+// a = {#steps, max #links per step}
+func vh_C15_spine(a []int) {
+	ns, maxl := a[0], a[1]
+	layout := Layout{Type: "layout", Keys: map[string]Key{}}
+	for i := 0; i < 3; i++ {
+		layout.Keys[vhFID[i]] = vhFKey(i)
+	}
+	md := map[string]map[string]Metadata{}
+	for s := 0; s < ns; s++ {
+		st := Step{Type: "step", Threshold: vInt("threshold", -1, 2), PubKeys: []string{vhFID[0], vhFID[1]},
+			SupplyChainItem: SupplyChainItem{Name: vhStepNames[s]}}
+		switch vChoice("rules", 4) {
+		case 1:
+			st.ExpectedMaterials = [][]string{}
+		case 2:
+			st.ExpectedMaterials = [][]string{{}}
+		case 3:
+			st.ExpectedProducts = [][]string{{"ALLOW", "*"}, {"DISALLOW"}}
+		}
+		layout.Steps = append(layout.Steps, st)
+		nl := vChoice("nlinks", maxl+1)
+		vAssume(vLeInt(st.Threshold, nl)) // preliminary threshold check of the loader
+		per := map[string]Metadata{}
+		for l := 0; l < nl; l++ {
+			m := &vhMeta{tag: "L" + strconv.Itoa(s) + strconv.Itoa(l), sigs: []Signature{{KeyID: vhFID[l], Sig: "00"}}}
+			if vBool("payload-is-layout") {
+				m.payload = Layout{Type: "layout"}
+			} else {
+				m.payload = Link{Type: "link", Name: vhStepNames[s], Materials: vhSmallArts("m"), Products: vhSmallArts("p")}
+			}
+			per[vhFID[l]] = m
+		}
+		md[vhStepNames[s]] = per
+	}
+	vKnown("KF-C15-threshold-zero", false)
+	verified, err := VerifyLinkSignatureThesholds(layout, md, nil, nil)
+	stage := "thresholds"
+	var reduced map[string]Metadata
+	if err == nil {
+		stage = "sublayouts"
+		verified, err = VerifySublayouts(layout, verified, "DIR", nil, false)
+	}
+	if err == nil {
+		stage = "alignment"
+		VerifyStepCommandAlignment(layout, verified)
+		stage = "reduce"
+		reduced, err = ReduceStepsMetadata(layout, verified)
+	}
+	if err == nil {
+		stage = "rules"
+		err = VerifyArtifacts(layout.stepsAsInterfaceSlice(), reduced)
+	}
+	if err == nil {
+		stage = "summary"
+		_, err = GetSummaryLink(layout, reduced, "sum", false)
+	}
+	vObserve("spine", stage, err == nil)
+	vReach("C15.end")
+}
+
+func init() { vhRegister("vh_C15_spine", vh_C15_spine) }
